@@ -77,7 +77,9 @@ fn main() {
                     let known = m.contains_key(&target);
                     let noop = known && m[&target].1 == extreme;
                     let guard = manager(&m, actor) && active(&m, target);
-                    let want_ok = known && (noop || guard);
+                    // the statement: accepted only if the author is an active manager and the action is valid (target an
+                    // active member) in this state — also when the target already has the extreme level (no-op)
+                    let want_ok = known && guard;
                     let got = if is_promote { promote(st(&m), actor, target, acc(lv)) } else { demote(st(&m), actor, target, acc(lv)) };
                     let inp = json!({"op": name, "state": show(&m), "actor": actor, "target": target, "level": lv});
                     let pre = format!("auth_state::{name}");
@@ -89,7 +91,7 @@ fn main() {
                         Ok(s2) => {
                             let g = norm(s2);
                             if g != m && !guard { rep(&format!("{name}-changes-state-without-authorization"), inp.clone(), json!({"result": show(&g)}), &o_eff); }
-                            if !want_ok { rep(&format!("{name}-accepted-unexpectedly"), inp.clone(), json!({"result": show(&g)}), &o_acc); }
+                            if !want_ok { rep(&format!("{name}-accepted-{}", if noop { "without-authorization-when-target-already-at-extreme-level" } else { "unexpectedly" }), inp.clone(), json!({"result": show(&g)}), &o_acc); }
                             else {
                                 let mut w = m.clone();
                                 let e = m[&target];
@@ -103,6 +105,35 @@ fn main() {
             }
         } }
     } } }
+    // ---- GroupCrdt::process level: an operation of somebody who is not an active manager in the state at its dependencies
+    // must be rejected and leave the replica (heads, members) unchanged — also when the action would not change anything
+    {
+        use p2panda_auth::group::GroupMember;
+        use p2panda_auth::test_utils::{create_group, demote_member, promote_member, TestGroup, TestOperation};
+        let a = |r: u8| acc(r);
+        let create = create_group('A', 0, 'G', vec![(GroupMember::Individual('A'), a(3)), (GroupMember::Individual('B'), a(3)), (GroupMember::Individual('X'), a(0)), (GroupMember::Individual('R'), a(1))], vec![]);
+        let cases: Vec<(&str, TestOperation)> = vec![
+            ("non-member demotes a member that is already at Pull", demote_member('Z', 1, 'G', GroupMember::Individual('X'), a(0), vec![0])),
+            ("reader demotes a member that is already at Pull", demote_member('R', 1, 'G', GroupMember::Individual('X'), a(0), vec![0])),
+            ("non-member promotes a member that is already a manager", promote_member('Z', 1, 'G', GroupMember::Individual('B'), a(3), vec![0])),
+            ("reader promotes a member that is already a manager", promote_member('R', 1, 'G', GroupMember::Individual('B'), a(3), vec![0])),
+            ("reader promotes a pull member", promote_member('R', 1, 'G', GroupMember::Individual('X'), a(1), vec![0])),
+            ("non-member re-creates the existing group with itself as only manager", create_group('Z', 1, 'G', vec![(GroupMember::Individual('Z'), a(3))], vec![0])),
+        ];
+        for (what, op) in cases {
+            n += 1;
+            let y = TestGroup::process(TestGroup::init(), &create).expect("create");
+            let before = { let mut h = y.heads(); h.sort(); h };
+            if let Ok(y2) = TestGroup::process(y, &op) {
+                let after = { let mut h = y2.heads(); h.sort(); h };
+                let mut mem: Vec<String> = y2.members('G').into_iter().map(|(id, a)| format!("{id}:{:?}", a.level)).collect(); mem.sort();
+                rep(if what.contains("re-creates") { "process-accepts-create-of-an-existing-group" } else { "process-accepts-operation-of-unauthorized-author" }, json!({"ops": [format!("{create:?}"), format!("{op:?}")], "case": what}), json!({"heads_before": before, "heads_after": after, "members_of_G_after": mem}),
+                    if what.contains("re-creates") { &["auth_state::apply_action.ensures#create_accepted_only_for_a_new_group", "auth_state::apply_action.safety"][..] } else {
+                    &["auth_state::promote.ensures#accepted_iff", "auth_state::demote.ensures#accepted_iff", "auth_state::promote.safety", "auth_state::demote.safety", "auth_state::modify.ensures#accepted_iff_modifier_is_active_manager_and_modified_active",
+                      "auth_state::apply_action.ensures#promote_accepted_only_from_an_active_manager", "auth_state::apply_action.ensures#demote_accepted_only_from_an_active_manager", "auth_state::apply_action.ensures#add_accepted_only_from_an_active_manager", "auth_state::apply_action.ensures#remove_accepted_only_from_an_active_manager_or_self", "auth_state::apply_action.safety"][..] });
+            }
+        }
+    }
     println!("{}", json!({"summary": true, "evaluations": n, "distinct_nontrivial": n, "exhaustive": true,
         "rule": "real state::{add,remove,promote,demote} vs executable guards/effects of the statement, all states over identities {0,1,2} x 12 member states + absent, actors/targets {0..3}",
         "bound": "3 identities + 1 unknown, member_counter<=2, access_counter<=1, levels {Pull,Read,Manage}", "violating_classes": reported}));
